@@ -16,6 +16,13 @@ for res in sorted(glob.glob(ROOT + "/results/*.json")):
         continue
     ok = r.get("applies") and r.get("tests_ok") and r.get("demo_with") == 1 and r.get("demo_without") == 0
     dst = os.path.join(HERE, "seeded", "%s-%s%s" % (pid, TAG, mut))
+    theme = None
+    if not re.match(r"C\d\d$", pid):
+        # round 3: directories are named after a theme letter; the property is on the first line of notes.md
+        theme = pid
+        first = open(os.path.join(src, "notes.md")).readline()
+        pid = re.search(r"C\d\d", first).group(0)
+        dst = os.path.join(HERE, "seeded", "%s%s-%s" % (TAG, theme, mut))
     if not ok:
         print("SKIP %s: not confirmed (%s)" % (name, {k: r.get(k) for k in ("applies", "tests_ok", "demo_with", "demo_without")}))
         continue
@@ -32,6 +39,7 @@ for res in sorted(glob.glob(ROOT + "/results/*.json")):
         checks[k] = {"exit": v["exit"], "rules": [re.sub(r"^rule=", "", x)[:220] for x in v["rules"][:3]]}
     meta = {
         "property": pid,
+        "theme": theme,
         "origin": "independent sub-agent given only the property text and a scratch worktree of /repo",
         "needs_to_manifest": notes.strip()[:1500],
         "confirmed": {
